@@ -79,7 +79,7 @@ def impl_table(case):
     cwd = os.getcwd()
     try:
         os.chdir(d)
-        names = []
+        all_names = []
         for f in case["files"]:
             o = _mk_result(f)
             o.info = {"title": f.get("title", "APE w.r.t. translation part (m)")}
@@ -89,7 +89,9 @@ def impl_table(case):
                 o = _metric_result(f)
             os.makedirs(os.path.dirname(os.path.join(d, f["fname"])) or d, exist_ok=True)
             file_interface.save_res_file(f["fname"], o)
-            names.append(f["fname"])
+            all_names.append(f["fname"])
+        # the files as GIVEN on the command line: any order, a file may be listed more than once
+        names = [all_names[i] for i in _argv_order(case)]
         argv = names + ["--save_table", "table.csv", "--no_warnings"]
         if case.get("use_filenames"):
             argv.append("--use_filenames")
@@ -112,16 +114,40 @@ def impl_table(case):
             cells = [[h, c] for h, c in zip(header, row[1:]) if c != ""]
             table.append([row[0], cells])
         stored = []
-        for f, n in zip(case["files"], names):
+        for n in names:
             lo = file_interface.load_res_file(n)
             stored.append({"stats": [[k, hexf(v)] for k, v in lo.stats.items()],
                            "arrays": [[k, [hexf(x) for x in np.asarray(a, dtype=float).ravel()]]
                                       for k, a in lo.np_arrays.items()],
                            "est_name": lo.info.get("est_name")})
-        return {"table": table, "stored": stored}
+        out = {"table": table, "stored": stored}
+        if case.get("check_arrays"):
+            # the same command once more with the package setting table_export_data = error_array: the table then holds the
+            # (merged) error array instead of the statistics
+            from evo.tools.settings import SETTINGS
+            old = SETTINGS.table_export_data
+            SETTINGS.table_export_data = "error_array"
+            try:
+                argv2 = [("errors.csv" if a == "table.csv" else a) for a in argv]
+                main_res.run(main_res_parser.parser().parse_args(argv2))
+                with open("errors.csv", newline="") as fh:
+                    erows = list(csv.reader(fh))
+                out["error_table"] = [[r[0], [hexf(float(c)) for c in r[1:] if c != ""]] for r in erows[1:]]
+            except SystemExit as e:
+                out["error_table_exit"] = e.code if e.code is not None else 0
+            except Exception as e:  # noqa
+                out["error_table_error"] = type(e).__name__ + ": " + str(e)[:200]
+            finally:
+                SETTINGS.table_export_data = old
+        return out
     finally:
         os.chdir(cwd)
         shutil.rmtree(d, ignore_errors=True)
+
+
+def _argv_order(case):
+    o = case.get("argv_order")
+    return list(o) if o is not None else list(range(len(case["files"])))
 
 
 def _metric_result(f):
@@ -173,12 +199,16 @@ def expr(case, out):
     # table: the model is fed with what is actually stored in the result files (read back through load_res_file)
     stored = out.get("stored")
     files = []
-    for k, f in enumerate(case["files"]):
+    for k, i in enumerate(_argv_order(case)):
+        f = case["files"][i]
         st = stored[k] if stored else {"stats": f["stats"], "arrays": f["arrays"], "est_name": f.get("est_name")}
         files.append((f["fname"], st))
     if case.get("merge"):
         rs = "[" + "; ".join(_cres(st, _copt_str(st["est_name"])) for _, st in files) + "]"
-        return "(table_merged (%s : list (Result PrimFloat.float (option string))), 0%%nat)" % rs
+        rs = "(%s : list (Result PrimFloat.float (option string)))" % rs
+        if case.get("check_arrays"):
+            return "(table_merged %s, 2%%nat, view (merge_results %s))" % (rs, rs)
+        return "(table_merged %s, 0%%nat)" % rs
     fs = "[" + "; ".join("mkResFile %s %s %s" % (cstr(n), _copt_str(st["est_name"]),
                                                   _cdict(st["stats"], lambda v: cf(unhex(v)))) for n, st in files) + "]"
     return "(table %s (%s : list (@ResFile PrimFloat.float)), 1%%nat)" % (cbool(case.get("use_filenames")), fs)
@@ -273,8 +303,42 @@ def judge_merge(case, val, out):
     return None
 
 
+def _spec_merged_array(stored, key, got):
+    """property text: 'for every array the element-wise mean when all inputs have equal array lengths or otherwise the
+    concatenation in input order' - evaluated exactly on the result files in the GIVEN order; None = holds"""
+    ak = [set(k for k, _ in st["arrays"]) for st in stored]
+    if any(a != ak[0] for a in ak) or key not in ak[0]:
+        return None
+    equal_len = all(len(set(len(dict(st["arrays"])[k]) for st in stored)) == 1 for k in ak[0])
+    ins = [[unhex(x) for x in dict(st["arrays"])[key]] for st in stored]
+    lens = [len(a) for a in ins]
+    if equal_len:
+        if len(got) != lens[0]:
+            return "merged %s has %d values, the %d given results have %d each" % (key, len(got), len(ins), lens[0])
+        for i in range(len(got)):
+            if not _exact_mean_ok([a[i] for a in ins], got[i]):
+                return "merged %s[%d] = %r is not the mean of the given results' values %r" % (key, i, got[i], [a[i] for a in ins])
+        return None
+    cat = [x for a in ins for x in a]
+    if len(got) != len(cat):
+        return ("merged %s has %d values; the concatenation of the given results (lengths %r, in the order given) has %d"
+                % (key, len(got), lens, len(cat)))
+    for i, (x, y) in enumerate(zip(got, cat)):
+        if not bits_equal(x, y):
+            return ("merged %s is not the concatenation in the order the files were given (lengths %r): value %d is %r, "
+                    "expected %r" % (key, lens, i, x, y))
+    return None
+
+
 def judge_table(case, val, out):
-    model, _ = val
+    f = _judge_table(case, val, out)
+    if f is not None and case.get("argv_order") is not None:
+        f["detail"] += " [files given to evo_res as: %s]" % " ".join(case["files"][i]["fname"] for i in _argv_order(case))
+    return f
+
+
+def _judge_table(case, val, out):
+    model = val[0]
     if out.get("error"):
         return {"kind": "spec-violation", "failing_input": True, "detail": "evo_res failed: " + out["error"]}
     model = _unsome(model) if model is not None else None
@@ -287,6 +351,10 @@ def judge_table(case, val, out):
                 "detail": "table written although labels collide / results cannot be merged"}
     rows = [model] if case.get("merge") else model
     got = out["table"]
+    if not case.get("merge"):
+        # the statement asks for one row per input file under its label; it does not fix the order of the rows
+        got = sorted(got, key=lambda r: r[0])
+        rows = sorted(rows, key=lambda r: r[0])
     if [r[0] for r in got] != [r[0] for r in rows]:
         return {"kind": "spec-violation", "failing_input": True,
                 "detail": "table labels %r differ from the expected labels %r" % ([r[0] for r in got], [r[0] for r in rows])}
@@ -296,6 +364,23 @@ def judge_table(case, val, out):
         if want != have:
             return {"kind": "spec-violation", "failing_input": True,
                     "detail": "row %r: cells %r are not exactly the statistics %r" % (lab, have, want)}
+    if case.get("check_arrays") and case.get("merge"):
+        if "error_table" not in out:
+            return {"kind": "spec-violation", "failing_input": True, "detail": "evo_res (table_export_data=error_array) failed: %r"
+                    % (out.get("error_table_error", out.get("error_table_exit")),)}
+        et = out["error_table"]
+        if [r[0] for r in et] != [r[0] for r in rows]:
+            return {"kind": "spec-violation", "failing_input": True,
+                    "detail": "error-array table labels %r differ from the expected labels %r" % ([r[0] for r in et], [r[0] for r in rows])}
+        got = [unhex(x) for x in et[0][1]]
+        msg = _spec_merged_array(out["stored"], "error_array", got)
+        if msg is not None:
+            return {"kind": "spec-violation", "failing_input": True, "detail": msg}
+        mv = _unsome(val[2][1]) if len(val) > 2 else None
+        marr = dict((k, [hexf(x) for x in a]) for k, a in mv[2]).get("error_array") if mv is not None else None
+        if marr != et[0][1]:
+            return {"kind": "model-vs-impl", "failing_input": False, "correspondence": "ResultMerge.merge_results (evo_res --merge)",
+                    "detail": "exported merged error array differs bitwise from the model"}
     return None
 
 
@@ -334,6 +419,13 @@ def shrink(case):
                     changed = True
         if changed:
             yield c
+    elif case.get("argv_order") is not None:
+        o = case["argv_order"]
+        for i in range(len(o)):
+            if len(o) > 1:
+                c = copy.deepcopy(case)
+                del c["argv_order"][i]
+                yield c
     else:
         fs = case["files"]
         for i in range(len(fs)):
@@ -448,11 +540,53 @@ def table_cases(ctx):
     return out
 
 
+NAME_POOLS = [["%d_ape.zip" % k for k in (1, 2, 9, 10, 11, 100)],
+              ["run_b/res.zip", "run_a/res.zip", "run_c/res.zip", "run_10/res.zip", "run_9/res.zip"],
+              ["Z.zip", "a.zip", "B.zip", "_x.zip", "b.zip"],
+              ["seq09_rpe.zip", "seq10_rpe.zip", "seq2_rpe.zip", "seq1_rpe.zip"]]
+
+
+def cli_order_cases(ctx):
+    """evo_res through its command-line layer (parser + main_res.run --save_table) with the result files given in an order
+    that is NOT the lexicographic one (9_ape.zip 10_ape.zip ...), and with a file listed more than once; --merge with
+    different estimate names and error arrays of unequal / equal lengths (the statistics table and, with the package setting
+    table_export_data=error_array, the merged error array), plain tables, results produced by evo_ape"""
+    rng = ctx.np_rng(22)
+    out = []
+    for c in range(ctx.n(40, 300)):
+        mode = c % 5      # 0 merge/unequal lengths, 1 merge/equal lengths, 2 merge/file listed twice, 3 plain, 4 plain/listed twice
+        n = int(rng.integers(2, 5))
+        pool = NAME_POOLS[int(rng.integers(0, len(NAME_POOLS)))]
+        fnames = [str(x) for x in rng.choice(pool, size=min(n, len(pool)), replace=False)]
+        n = len(fnames)
+        if c % 4 != 3 and fnames == sorted(fnames):
+            fnames.reverse()
+        ks = [str(k) for k in rng.choice(KEYS, size=int(rng.integers(1, 6)), replace=False)]
+        via = (c % 10 == 7)
+        base_len = int(rng.integers(1, 6))
+        files = []
+        for i, fn in enumerate(fnames):
+            ln = base_len if mode == 1 else base_len + i + int(rng.integers(0, 3))
+            f = R([(k, _val(rng)) for k in ks], [("error_array", [abs(_val(rng)) for _ in range(ln)])], i)
+            f.update({"fname": fn, "est_name": "slam/%s_est.txt" % fn.replace("/", "_").replace(".zip", "")})
+            if via:
+                f.update({"via": "ape", "via_seed": int(rng.integers(0, 10 ** 6)), "via_n": 5 + 3 * i})
+            files.append(f)
+        order = list(range(n))
+        if mode in (2, 4):
+            for _ in range(int(rng.integers(1, 3))):
+                order.insert(int(rng.integers(0, len(order) + 1)), int(rng.integers(0, n)))
+        merge = mode in (0, 1, 2)
+        out.append({"kind": "table", "files": files, "use_filenames": bool(mode == 3 and c % 2), "merge": merge,
+                    "argv_order": order, "check_arrays": bool(merge and not via)})
+    return out
+
+
 def run(ctx, replay=None, proofs_ok=True):
     if replay is not None:
         cases = [replay["case"]]
     else:
-        cases = CORPUS + random_merge_cases(ctx) + table_cases(ctx)
+        cases = CORPUS + random_merge_cases(ctx) + table_cases(ctx) + cli_order_cases(ctx)
     failures, stats = differential(ctx, cases, imports=IMPORTS, impl=impl, expr=expr, judge=judge, shrink=shrink,
                                    nontrivial=nontrivial, per_file=200)
     hist = {}
@@ -472,12 +606,21 @@ def run(ctx, replay=None, proofs_ok=True):
         else:
             b = "table:files=%d%s%s%s" % (len(c["files"]), ",use_filenames" if c.get("use_filenames") else "",
                                           ",merge" if c.get("merge") else "", ",evo_ape/rpe results" if c["files"][0].get("via") else "")
+            if c.get("argv_order") is not None:
+                o = _argv_order(c)
+                given = [c["files"][i]["fname"] for i in o]
+                b += ",given %s%s%s" % ("in lexicographic order" if given == sorted(given) else "NOT in lexicographic order",
+                                        ",a file listed twice" if len(set(o)) < len(o) else "",
+                                        ",merged error array checked" if c.get("check_arrays") else "")
         hist[b] = hist.get(b, 0) + 1
     cov = {"evaluations": stats["evaluations"], "distinct_nontrivial": stats["distinct_nontrivial"],
            "rule": "corpus (F8 witness, empty/single, key mismatches, empty arrays, 8 results) + random lists of 1..8 results "
                    "(0..4 statistics, 0..3 arrays; lengths equal / one differing / random / with empties; dict insertion orders "
                    "permuted; key sets differing in one key) + evo_res --save_table end to end on 1..4 result zips "
-                   "(labels from est_name basename / file names / --merge, duplicate labels, results from evo_ape/evo_rpe); "
+                   "(labels from est_name basename / file names / --merge, duplicate labels, results from evo_ape/evo_rpe) + "
+                   "evo_res command-line runs with the files given in non-lexicographic order (9_ape.zip 10_ape.zip) and with a "
+                   "file listed twice, --merge judged on label, statistics and the exported merged error array (unequal / equal "
+                   "lengths) against the result files in the GIVEN order; "
                    "distinct by input; non-trivial = at least two results with some statistic or array, or a written table",
            "samples": cases[:2] + cases[-2:], "input_distribution": hist,
            "regimes": {"exact": stats["evaluations"], "rounded": 0, "fragile": 0},
